@@ -57,8 +57,8 @@ var c15Once sync.Once
 type c15Features struct{}
 
 func (c15Features) GetFeatures() *environment.Features { return &environment.Features{} }
-func (c15Features) RefreshFeatures()                    {}
-func (c15Features) FeatureGate(string) string           { return "" }
+func (c15Features) RefreshFeatures()                   {}
+func (c15Features) FeatureGate(string) string          { return "" }
 
 type c15Fault struct {
 	Kind string `json:"kind"` // save | restore
@@ -143,7 +143,7 @@ type c15State struct {
 	hooks  string            // FORWARD insert/append variant
 	apps   string            // FORWARD always-append variant
 	// reference: what other software put there (non-Felix chains -> rules in order)
-	foreign map[string][]string
+	foreign  map[string][]string
 	nForeign int
 
 	drift bool // somebody changed the table and Felix has not re-read it since
@@ -156,12 +156,12 @@ type c15State struct {
 	restoresOK      int
 	sleeps          int
 
-	key, out string
-	nontriv  bool
+	key, out  string
+	nontriv   bool
 	evOut     string // outcome / non-triviality of the EVENT (the probes of Check overwrite out/nontriv)
 	evNontriv bool
-	bad      []hbfs.Fail
-	badSeen  map[string]bool
+	bad       []hbfs.Fail
+	badSeen   map[string]bool
 }
 
 func (s *c15State) fail(key, f string, a ...any) {
